@@ -821,7 +821,7 @@ def stub_proof_fns(text):
         head = text[it.head_start:it.body_open]
         if not re.search(r'\bproof\s+fn\b', head):
             continue
-        out = out[:it.head_start] + '#[verifier::external_body]\n' + head + '{}' + out[it.end:]
+        out = out[:it.head_start] + '#[verifier::external_body]\n' + head + '{ unimplemented!() }' + out[it.end:]
     return out
 
 
